@@ -69,15 +69,16 @@ def prefixFromStrCheck (bits addr len : Nat) : Option Bool :=
     -- `trailing_zeros(addr) ≥ d`  ⇔  the low `d` bits are zero
     some (addr % 2 ^ d == 0)
 
-/-- The mask of `covers` and `resize`: `!(MAX >> len)`, reached only when `len ≠ BITS`
-(`covers`) resp. `len < BITS` (`resize`). -/
+/-- `covers` with its shift checked: the mask `!(MAX >> len)` is computed only when
+`len ≠ BITS`, the shift panics when `len ≥ BITS`.  (The value of the masked comparison is
+`truncTo`, as in `Prefix.covers`.) -/
 def coversChecked (p q : Prefix) : Option Bool :=
   if p.fam != q.fam then some false
   else if p.len > q.len then some false
   else if p.len == p.fam.bits then some (p.addr == q.addr)
   else do
-    let m ← checkedShr p.fam.bits (2 ^ p.fam.bits - 1) p.len
-    some (p.addr == q.addr - q.addr % (m + 1))
+    let _mask ← checkedShr p.fam.bits (2 ^ p.fam.bits - 1) p.len
+    some (p.addr == truncTo p.fam.bits p.len q.addr)
 
 /-! ### strings
 
